@@ -20,8 +20,18 @@ coroutines always let a cancellation propagate), and `exit` once requested.
 namespace Driver.Portal
 open AnyioModel AnyioModel.Thread.Portal
 
+/-- an entry of the loop's ready queue (FIFO): requests posted by foreign threads with
+`call_soon_threadsafe` and first steps of tasks created by them -/
+inductive Item where
+  | spawnCall (c : Nat)
+  | stepCall (c : Nat)
+  | stopCall (cr : Bool)     -- `portal.call(portal.stop, cr)`: itself a portal call
+  | stopStep (cr : Bool)
+
 structure DState where
   s       : State
+  blocked : Bool
+  ready   : List Item
   ncalls  : Nat
   syncOut : List (Nat × Outcome)
   wantStarted : List Nat
@@ -30,7 +40,7 @@ structure DState where
   hits    : List (String × Nat)
 
 def DState.init : DState :=
-  { s := AnyioModel.Thread.Portal.init, ncalls := 0, syncOut := [], wantStarted := [],
+  { s := AnyioModel.Thread.Portal.init, blocked := false, ready := [], ncalls := 0, syncOut := [], wantStarted := [],
     exitReq := false, outs := [], hits := [] }
 
 def bump (h : List (String × Nat)) (k : String) : List (String × Nat) :=
@@ -93,15 +103,10 @@ def fire (d : DState) (e : Ev) : Option (DState × Out) :=
       | _ => d1
     some (d2, o)
 
+/-- loop-side events that are not tied to a queue entry -/
 def internal (d : DState) : List Ev :=
   let cs := List.range d.ncalls
   let s := d.s
-  cs.map .spawn ++
-  cs.filterMap (fun c => match d.syncOut.find? (·.1 = c) with
-    | some (_, o) => some (.beginSync c o)
-    | none => none) ++
-  cs.map .begin ++
-  (cs.filter (fun c => d.wantStarted.contains c)).map (fun c => .started c c) ++
   (cs.filter (fun c => decide (s.pc c = .running) && (s.cancelReq c || s.groupCancel))).map
     (fun c => .finish c .cancelled) ++
   (if d.exitReq then [.exit] else [])
@@ -113,12 +118,35 @@ def fireFirst (d : DState) : List Ev → Option DState
     | some (d', _) => some d'
     | none => fireFirst d es
 
+def fireD (d : DState) (e : Ev) : DState :=
+  match fire d e with
+  | some (d', _) => d'
+  | none => d
+
+/-- run the head of the ready queue -/
+def runItem (d : DState) (it : Item) : DState :=
+  match it with
+  | .spawnCall c =>
+    let d1 := fireD d (.spawn c)
+    if d1.s.pc c = .spawned then { d1 with ready := d1.ready ++ [.stepCall c] } else d1
+  | .stepCall c =>
+    let d1 := match d.syncOut.find? (·.1 = c) with
+      | some (_, o) => fireD d (.beginSync c o)
+      | none => fireD d (.begin c)
+    if d1.wantStarted.contains c then fireD d1 (.started c c) else d1
+  | .stopCall cr => { d with ready := d.ready ++ [.stopStep cr] }
+  | .stopStep cr => fireD d (.stop cr)
+
 def settle : Nat → DState → DState
   | 0, d => d
   | n + 1, d =>
-    match fireFirst d (internal d) with
-    | none => d
-    | some d' => settle n d'
+    if d.blocked then d else
+    match d.ready with
+    | it :: rest => settle n (runItem { d with ready := rest } it)
+    | [] =>
+      match fireFirst d (internal d) with
+      | none => d
+      | some d' => settle n d'
 
 def obs (d : DState) : String :=
   let s := d.s
@@ -134,6 +162,8 @@ def handle (d : DState) : List String → DState × String
   | ["new"] => ({ DState.init with hits := d.hits }, "ok")
   | ["obs"] => (d, obs d)
   | ["settle"] => (settle 10000 d, "ok")
+  | ["block"] => ({ d with blocked := true }, "ok")
+  | ["unblock"] => ({ d with blocked := false }, "ok")
   | ["hits"] => (d, " ".intercalate (d.hits.map (fun p => s!"{p.1}={p.2}")))
   | ["state"] =>
     (d, s!"portal={portalStr d.s.portal} groupcancel={Driver.bool01 d.s.groupCancel}")
@@ -154,7 +184,9 @@ def handle (d : DState) : List String → DState × String
       | some (k, d1) =>
         match fire d1 (.issue c k) with
         | none => (d, "DISABLED")
-        | some (d2, o) => (d2, outStr o)
+        | some (d2, o) =>
+          if o = .runtimeError then (d2, outStr o)
+          else ({ d2 with ready := d2.ready ++ [.spawnCall c] }, outStr o)
   | ["finish", c, k] =>
     match c.toNat? with
     | none => (d, "bad-op")
@@ -177,18 +209,14 @@ def handle (d : DState) : List String → DState × String
     match Driver.parseBool cr with
     | none => (d, "bad-op")
     | some cr =>
-      match fire d (.stop cr) with
-      | none => (d, "DISABLED")
-      | some (d', r) => (d', outStr r)
+      if d.s.portal = .running then ({ d with ready := d.ready ++ [.stopCall cr] }, "env")
+      else (d, "DISABLED")
   | ["exitreq", x] =>
     match Driver.parseBool x with
     | none => (d, "bad-op")
     | some x =>
       let d1 := { d with exitReq := true }
-      if d.s.portal = .running then
-        match fire d1 (.stop x) with
-        | none => (d1, "DISABLED")
-        | some (d', _) => (d', "ok")
+      if d.s.portal = .running then ({ d1 with ready := d1.ready ++ [.stopCall x] }, "ok")
       else (d1, "ok")
   | ["spawn", c] =>
     match c.toNat? with
